@@ -954,8 +954,8 @@ def worker(bdir, kind, lo, hi):
 def main(tier):
     t0 = time.time()
     b = build.vbuild("asan")
-    nsess = core.scaled(3000 if tier == "quick" else 60000)
-    npop = core.scaled(400 if tier == "quick" else 8000)
+    nsess = core.scaled(6000 if tier == "quick" else 60000)
+    npop = core.scaled(800 if tier == "quick" else 8000)
     ndir = len(directed_cases())
     jobs = []
     per = max(10, nsess // (core.JOBS * 4))
